@@ -142,7 +142,12 @@ func RunCheck(id, tier string, seed int, verifDir string) int {
 				}
 			}
 			freps = append(freps, rep)
-			obs = append(obs, rep.Obs...)
+			for _, ob := range rep.Obs {
+				if ob.Only && !hasProp(ob.Props, id) {
+					continue // clause attributed to other properties only
+				}
+				obs = append(obs, ob)
+			}
 			obs = append(obs, rep.Vacuity...)
 		}
 	}
@@ -251,6 +256,7 @@ func RunCheck(id, tier string, seed int, verifDir string) int {
 	trusted := map[string]bool{}
 	defaults := map[string]bool{}
 	inlined := map[string]bool{}
+	unverified := map[string]bool{}
 	for _, fr := range freps {
 		fuc = append(fuc, map[string]interface{}{"func": fr.Func, "mode": fr.Mode, "ssa_instructions": fr.Instrs, "paths": fr.Paths})
 		for _, n := range fr.Notes {
@@ -265,6 +271,9 @@ func RunCheck(id, tier string, seed int, verifDir string) int {
 		for _, n := range fr.Inlined {
 			inlined[n] = true
 		}
+		for _, n := range fr.Unverified {
+			unverified[n] = true
+		}
 	}
 	samples := []interface{}{}
 	for i, r := range res {
@@ -276,6 +285,9 @@ func RunCheck(id, tier string, seed int, verifDir string) int {
 		"SMT solvers z3 5.1.0 / cvc5 1.0 / z3 4.8.12 (an unsat from one is accepted in quick; thorough requires no disagreement)"}
 	for _, n := range sortedNotes(trusted) {
 		tb = append(tb, "assumed contract: "+n)
+	}
+	for _, n := range sortedNotes(unverified) {
+		tb = append(tb, "Helios function used through a contract that is stated but NOT verified by any check (assumed): "+n)
 	}
 	for _, n := range sortedNotes(defaults) {
 		tb = append(tb, "external without spec (result arbitrary, no effect on Helios state): "+n)
@@ -290,7 +302,7 @@ func RunCheck(id, tier string, seed int, verifDir string) int {
 	}
 	sort.Strings(assum[len(meta.Assumptions):])
 	cov := map[string]interface{}{
-		"obligations": len(res), "discharged": discharged,
+		"obligations": len(res) - len(knownSeen), "discharged": discharged, "known_finding_obligations": len(knownSeen),
 		"checker_cmd":              fmt.Sprintf("bin/hv check %s %s", id, tier),
 		"trusted_base":             tb,
 		"functions_under_contract": fuc,
@@ -377,7 +389,12 @@ func WriteLock(verifDir string, ids []string) error {
 						ob.Name += "[" + m + "]"
 					}
 				}
-				obs = append(obs, rep.Obs...)
+				for _, ob := range rep.Obs {
+					if ob.Only && !hasProp(ob.Props, id) {
+						continue
+					}
+					obs = append(obs, ob)
+				}
 				obs = append(obs, rep.Vacuity...)
 			}
 		}
